@@ -631,8 +631,14 @@ class DiscoveryComputation(MessagePassingComputation):
 
     def _on_replica_publish(self, _, msg: PublishReplicaMessage):
         if msg.publish:
-            self.discovery.register_replica(msg.replica, msg.agent,
-                                            publish=False)
+            try:
+                self.discovery.register_replica(msg.replica, msg.agent,
+                                                publish=False)
+            except UnknownComputation:
+                # Late notification: the computation has been unregistered
+                # locally in the meantime.
+                self.logger.info('Ignoring replica of unknown computation '
+                                 '%s on %s', msg.replica, msg.agent)
         else:
             self.discovery.unregister_replica(msg.replica, msg.agent,
                                               publish=False)
